@@ -24,6 +24,7 @@ def run(rep, tier, seed, rng):
                   "keep_going": rng.choice([0, 1, 1, 2, 3]), "ninja_rc": rng.choice([0, 0, 0, 1, "kill"])}
             pairs = [(b, a) for b in bl for a in al]
             sc["fail"] = rng.sample(pairs, rng.randint(0, min(3, len(pairs))))
+            if sc["fail"] and rng.random() < 0.3: sc["kill_tasks"] = True       # the failing tasks die from a signal instead of exiting 1
             if rng.random() < 0.15: sc["generate_only"] = True
             steps.append((cc, sc))
         items.append((f, steps))
